@@ -385,9 +385,9 @@ impl Model {
             // included): pending or current clauses are lost, and even retracts of clauses no cursor
             // depends on have been seen to make later calls loop
             "family-retract-of-pending-clause".into()
-        } else if self.used_asserta && (self.assert_under_cursor || self.retract_under_cursor || self.db.iter().any(|c| !c.alive)) {
-            // asserta combined with an open cursor or with any retract (a dead clause exists)
-            "family-asserta-with-open-cursor-or-retract".into()
+        } else if self.used_asserta {
+            // any asserta/1 on the indexed predicate
+            "family-asserta".into()
         } else {
             format!("core-{}", self.ctx())
         }
